@@ -89,7 +89,7 @@ func runC10(c *Ctx) {
 	{
 		buff := w.Field("proto", "STUNConn", "buff")
 		n := 0
-		w.eachInstr(readFrom, func(in ssa.Instruction) {
+		w.eachInstrDeep(readFrom, func(in ssa.Instruction) {
 			st, ok := in.(*ssa.Store)
 			if !ok {
 				return
@@ -122,6 +122,27 @@ func runC10(c *Ctx) {
 						c.OK("C10.3", fname(readFrom), "append", w.instrPos(in), "bytes read are appended to the buffer")
 						return
 					}
+					// appending to a fresh empty slice is the same when the buffer is known empty
+					emptyBuf := false
+					for _, f := range w.factsAt(in) {
+						if f.Op == "==" && f.Truth {
+							for _, pair := range [][2]ssa.Value{{f.X, f.Y}, {f.Y, f.X}} {
+								if k, isK := constInt(pair[1]); isK && k == 0 {
+									if t := termOf(pair[0]); t.Len {
+										if _, fl, isL := fieldLoad(t.V); isL && fl == buff {
+											emptyBuf = true
+										}
+									}
+								}
+							}
+						}
+					}
+					if sl, isS := v.Call.Args[0].(*ssa.Slice); isS && emptyBuf {
+						if _, isAl := sl.X.(*ssa.Alloc); isAl {
+							c.OK("C10.3", fname(readFrom), "append", w.instrPos(in), "the buffer is empty here: the bytes read become the buffer (private copy)")
+							return
+						}
+					}
 				}
 				c.Bad("C10.3", fname(readFrom), "buff store", w.instrPos(in), "unexpected rewrite of the reassembly buffer")
 			default:
@@ -132,15 +153,78 @@ func runC10(c *Ctx) {
 			c.Bad("C10.3", fname(readFrom), "buff stores", w.pos(readFrom.Pos()), "ReadFrom no longer both consumes frames and appends fresh bytes")
 		}
 		c.Anchor("C10.3", "invalid edge")
+		// Only an INCOMPLETE frame may make ReadFrom wait for more bytes: at every read of the
+		// underlying connection the error of the preceding frame test can only be the
+		// incomplete-frame sentinel (all other errors of that test were returned before).
 		okInv := false
-		for _, r := range returnsOf(readFrom) {
-			for _, f := range w.factsAt(r) {
-				if _, g, ok := sentinelFact(w, f); ok && strings.Contains(g.Name(), "Invalid") {
-					if !isNilConst(w.resolveLoad(r.Results[2])) {
-						okInv = true
+		nReads := 0
+		w.eachInstrDeep(readFrom, func(in ssa.Instruction) {
+			call, ok := in.(*ssa.Call)
+			if !ok || !call.Call.IsInvoke() || call.Call.Method.Name() != "Read" {
+				return
+			}
+			nReads++
+			facts := w.factsAt(in)
+			good := false
+			for _, f := range facts {
+				x, outcome := factOutcome(f)
+				var tested ssa.Value
+				if x != nil && outcome == "nonnil" {
+					tested = x
+				}
+				if sv, _, isS := sentinelFact(w, f); isS {
+					tested = sv
+				}
+				if tested == nil {
+					continue
+				}
+				ec, ei := callOf(w.resolveLoad(tested))
+				if ec == nil || ec.Call.StaticCallee() == nil || !w.IsMod[ec.Call.StaticCallee()] {
+					continue
+				}
+				set, known := w.errGlobals(ec.Call.StaticCallee(), ei, 3)
+				if !known || len(set) == 0 {
+					continue
+				}
+				// narrow by the facts about that very value
+				for _, f2 := range facts {
+					if sv, g, isS := sentinelFact(w, f2); isS && w.sameKey(sv, tested) {
+						set = map[string]bool{g.Name(): true}
+					}
+					if f2.Op == "true" && !f2.Truth {
+						if ic, _ := callOf(f2.X); ic != nil && ic.Call.StaticCallee() != nil && ic.Call.StaticCallee().String() == "errors.Is" && w.sameKey(ic.Call.Args[0], tested) {
+							if g := globalLoad(w.resolveLoad(ic.Call.Args[1])); g != nil {
+								delete(set, g.Name())
+							}
+						}
+					}
+					if f2.Op == "==" && !f2.Truth {
+						for _, pair := range [][2]ssa.Value{{f2.X, f2.Y}, {f2.Y, f2.X}} {
+							if g := globalLoad(w.resolveLoad(pair[1])); g != nil && w.sameKey(pair[0], tested) {
+								delete(set, g.Name())
+							}
+						}
 					}
 				}
+				only := len(set) > 0
+				for name := range set {
+					if !strings.Contains(name, "Incomplete") {
+						only = false
+					}
+				}
+				if only {
+					good = true
+				}
 			}
+			if good {
+				okInv = true
+			} else {
+				okInv = false
+				nReads = -1000
+			}
+		})
+		if nReads <= 0 {
+			okInv = false
 		}
 		if okInv {
 			c.OK("C10.3", fname(readFrom), "invalid edge", w.pos(readFrom.Pos()), "bytes that cannot begin a frame yield the error")
@@ -370,4 +454,44 @@ func sentinelFact(w *World, f Fact) (ssa.Value, *ssa.Global, bool) {
 		}
 	}
 	return nil, nil, false
+}
+
+// errGlobals: the package-level error values result #idx of fn can be (besides nil), followed
+// through module callees whose error it forwards. known=false when some return yields
+// something else (a wrapped or freshly made error).
+func (w *World) errGlobals(fn *ssa.Function, idx int, depth int) (map[string]bool, bool) {
+	out := map[string]bool{}
+	if fn == nil || len(fn.Blocks) == 0 || depth <= 0 {
+		return out, false
+	}
+	if idx < 0 {
+		idx = 0
+	}
+	for _, r := range returnsOf(fn) {
+		if idx >= len(r.Results) {
+			return out, false
+		}
+		for _, lf := range w.guardedLeaves(r.Results[idx], r) {
+			v := stripIface(w.resolveLoad(lf.val))
+			if isNilConst(v) {
+				continue
+			}
+			if g := globalLoad(v); g != nil {
+				out[g.Name()] = true
+				continue
+			}
+			if c, ci := callOf(v); c != nil && c.Call.StaticCallee() != nil && w.IsMod[c.Call.StaticCallee()] {
+				sub, ok := w.errGlobals(c.Call.StaticCallee(), ci, depth-1)
+				if !ok {
+					return out, false
+				}
+				for k := range sub {
+					out[k] = true
+				}
+				continue
+			}
+			return out, false
+		}
+	}
+	return out, true
 }
